@@ -25,6 +25,23 @@ def sival(x):
     return si.si_val(x)
 
 
+def sival_as(x, kind):
+    """SI magnitude of a recorded sample that is supposed to be of `kind`; a sample of another kind (or a bare number
+    where a quantity is expected) is reported as the string 'WRONG KIND:<type>' instead of breaking the harness"""
+    if x is None:
+        return None
+    if kind is None:
+        return x if isinstance(x, (int, float)) else 'WRONG KIND:' + type(x).__name__
+    if type(x).__name__ != kind and not (kind == 'AngularPosition' and type(x).__name__ == 'Angle'):
+        return 'WRONG KIND:' + type(x).__name__
+    return si.si_val(x)
+
+
+VAR_KIND = {'angular position': 'AngularPosition', 'angular speed': 'AngularSpeed', 'angular acceleration': 'AngularAcceleration',
+            'torque': 'Torque', 'driving torque': 'Torque', 'load torque': 'Torque', 'tangential force': 'Force',
+            'bending stress': 'Stress', 'contact stress': 'Stress', 'electric current': 'Current', 'pwm': None}
+
+
 class TooManyInstants(Exception):
     """the run computed far more instants than the requested grid has (raised from the load callback so that a
     runaway time axis ends the run instead of exhausting the exploration budget)"""
@@ -81,6 +98,10 @@ class SimHarness(HarnessBase):
         # float replay may legitimately record one more instant (that is property C11's subject)
         if self.full and sym_out.ok and conc_out.ok:
             return sym_out.value['n'] != conc_out.value['n']
+        # a cross-unit `==` decides inside an ABSOLUTE band of 1e-12 (recorded finding C05): no float replay can be kept
+        # inside such a band, so a differing equal_to reading is a boundary effect, not an engine error
+        if sym_out.ok and 'stop' in (sym_out.value or {}) and sym_out.value['stop'].get('op') == 'equal_to':
+            return True
         return False
 
     # ------------------------------------------------------------------ run
@@ -117,6 +138,7 @@ class SimHarness(HarnessBase):
         rec['dt'] = dt
         ctl = self._control(env, pt, M, rec)
         solver = Solver(powertrain=pt)
+        stops = {}
         rec['pwm_before'] = M.motor.pwm
         try:
             for op in schedule:
@@ -126,7 +148,12 @@ class SimHarness(HarnessBase):
                     f_u = float(si.SI['Time'][unit])
                     dtq = gu.TimeInterval(dt / f_u if unit != 'sec' else dt, unit)
                     Tq = dtq * K
-                    stop = self._stop(gu, env, M, op[2], rec) if op[0] == 'run_stop' else None
+                    stop = None
+                    if op[0] == 'run_stop':
+                        # the same StopCondition object serves every run of the schedule that names the same condition
+                        if op[2] not in stops:
+                            stops[op[2]] = self._stop(gu, env, M, op[2], rec)
+                        stop = stops[op[2]]
                     n0 = len(pt.time)
                     lim['n'] = (n0 + K) if n0 else (K + 1)
                     rec['runs'].append(dict(K=K, start=n0, end=None, stopped=op[0] == 'run_stop',
@@ -234,6 +261,25 @@ class SimHarness(HarnessBase):
                     return d
             ctl.add_rule(Arb())
             return ctl
+        if c[0] == 'const':
+            # built-in ConstantPWM rules: ((start, duration, value), ...) in seconds
+            import gearpy.units as gu
+            from gearpy.motor_control.rules import ConstantPWM
+            from gearpy.sensors import Timer
+            for (st, du, val) in c[1]:
+                ctl.add_rule(ConstantPWM(timer=Timer(start_time=gu.Time(st, 'sec'), duration=gu.TimeInterval(du, 'sec')),
+                                         powertrain=pt, target_pwm_value=val))
+            return ctl
+        if c[0] == 'startlim':
+            # built-in StartLimitCurrent (encoder on the last element, tachometer on the motor), concrete parameters
+            import gearpy.units as gu
+            from gearpy.motor_control.rules import StartLimitCurrent
+            from gearpy.sensors import AbsoluteRotaryEncoder, Tachometer
+            rec['startlim'] = dict(ilim=c[1], tgt=c[2])
+            ctl.add_rule(StartLimitCurrent(encoder=AbsoluteRotaryEncoder(target=M.last), tachometer=Tachometer(target=M.motor),
+                                           motor=M.motor, target_angular_position=gu.AngularPosition(c[2], 'rad'),
+                                           limit_electric_current=gu.Current(c[1], 'A')))
+            return ctl
         if c[0] == 'arbopt2':
             # two optional arbitrary rules: both may be applicable at the same instant
             rec['props2'] = []
@@ -284,10 +330,7 @@ class SimHarness(HarnessBase):
         for ob in M.objs:
             d = {}
             for var, lst in ob.time_variables.items():
-                if var == 'pwm':
-                    d[var] = list(lst)
-                else:
-                    d[var] = [sival(x) for x in lst]
+                d[var] = [sival_as(x, VAR_KIND.get(var)) for x in lst]
             els.append(d)
         rec['el'] = els
         rec['cur'] = [dict(pos=sival(o.angular_position), spd=sival(o.angular_speed), acc=sival(o.angular_acceleration),
@@ -338,7 +381,13 @@ class SimHarness(HarnessBase):
         n = rec['n']
         for d in rec['el']:
             for v in BASE_VARS:
-                n = min(n, len(d[v]))
+                lst = d[v]
+                m = len(lst)
+                for j, x in enumerate(lst):
+                    if isinstance(x, str):
+                        m = j
+                        break
+                n = min(n, m)
         return n
 
     def ob_C01(self, rec):
@@ -504,6 +553,20 @@ class SimHarness(HarnessBase):
         if self.control is None:
             for k, p in enumerate(pw):
                 obs.append(eq('pwm.default_without_control[k=%d]' % k, p, rec['pwm_before']))
+        if self.control and self.control[0] == 'const':
+            # timer rules with concrete windows on a concrete time grid: the expected duty cycle is known per instant
+            tms = rec['time']
+            for k in range(min(len(pw), len(tms))):
+                t = float(tms[k]) if not isinstance(tms[k], SR) else None
+                if t is None:
+                    continue
+                act = [val for (st, du, val) in self.control[1] if st <= t <= st + du]
+                if len(act) == 1:
+                    obs.append(eq('pwm.timer_rule_value[k=%d]' % k, pw[k], act[0]))
+                elif not act:
+                    obs.append(eq('pwm.default_when_no_timer_rule[k=%d]' % k, pw[k], 1))
+            obs.append(holds('pwm.timer_rules_history_complete', len(pw) == rec['n'] and rec['raised'] is None,
+                             info='pwm=%d n=%d raised=%s' % (len(pw), rec['n'], rec['raised'])))
         if self.control and self.control[0] == 'arbopt2':
             pr = rec['props2']
             pairs = [(pr[2 * k], pr[2 * k + 1]) for k in range(len(pr) // 2)]
@@ -526,6 +589,31 @@ class SimHarness(HarnessBase):
                 obs.append(holds('pwm.simulation_stops_at_conflict', len(pw) == conflict_at and len(pairs) == conflict_at + 1,
                                  info='conflict at instant %d but %d duty cycles recorded, %d instants consulted'
                                       % (conflict_at, len(pw), len(pairs))))
+        return obs
+
+    def ob_C15(self, rec):
+        """whole controlled simulation: while StartLimitCurrent is in force (theta <= target) and its proposal is not
+        clipped and outside the dead zone, the recorded motor current equals the limit"""
+        obs = []
+        E = rec['el']
+        L = len(E) - 1
+        P = rec['P']
+        sl = rec.get('startlim')
+        pw = E[0].get('pwm', [])
+        cur = E[0].get('electric current', [])
+        n = min(self._n_common(rec), len(pw), len(cur))
+        obs.append(holds('ctl.history_complete', sl is not None and n == rec['n'] and n >= 2 and rec['raised'] is None,
+                         info='n=%d of %d raised=%s' % (n, rec['n'], rec['raised'])))
+        if sl is None:
+            return obs
+        i0, imax = T(P['i0']), T(P['imax'])
+        for k in range(n):
+            D = T(pw[k])
+            in_force = T(E[L]['angular position'][k]) <= z3.RealVal(Fraction(sl['tgt']))
+            unclipped = z3.And(D < 1, D > -1)
+            outside_dead = z3.Or(D * imax > i0, -D * imax > i0)
+            obs.append(eq('ctl.current_equals_limit[k=%d]' % k, cur[k], sl['ilim'], tol=1e-9, prefer_robust=True,
+                          trigger=z3.And(in_force, unclipped, outside_dead)))
         return obs
 
     def ob_C16(self, rec):
@@ -566,6 +654,8 @@ class SimHarness(HarnessBase):
                 obs.append(holds('tv.one_sample_per_instant[i=%d,%s]' % (i, var), len(lst) == n,
                                  info='%s of element %d: %d samples for %d instants' % (var, i, len(lst), n)))
                 obs.append(holds('tv.no_missing_sample[i=%d,%s]' % (i, var), all(x is not None for x in lst)))
+                bad = [x for x in lst if isinstance(x, str)]
+                obs.append(holds('tv.sample_is_of_the_variable_kind[i=%d,%s]' % (i, var), not bad, info='%s' % bad[:3]))
         if '_io' in rec:
             obs.append(holds('tv.snapshot_succeeds', rec['_io']['snapshot'] == 'ok', info=rec['_io']['snapshot']))
             obs.append(holds('tv.export_succeeds', rec['_io']['export'] == 'ok', info=rec['_io']['export']))
@@ -573,7 +663,7 @@ class SimHarness(HarnessBase):
             d = rec['el'][i]
             for var, key in (('angular position', 'pos'), ('angular speed', 'spd'), ('angular acceleration', 'acc'),
                              ('torque', 'tq'), ('driving torque', 'drv'), ('load torque', 'load')):
-                if d[var] and d[var][-1] is not None and c[key] is not None:
+                if d[var] and d[var][-1] is not None and c[key] is not None and not isinstance(d[var][-1], str):
                     obs.append(eq('tv.last_sample_is_current[i=%d,%s]' % (i, var), d[var][-1], c[key]))
         return obs
 
@@ -678,11 +768,17 @@ def common_specs(tier, seed, arb=True, locking=True, units=True):
         S.append(spec('T3', schedule=R2, control=('arb', -1, 1)))
         if locking:
             S.append(spec('T4', schedule=R2, control=('arb', -1, 1)))
+    S.append(spec('T1', schedule=(('run_stop', 3, ('encoder', 2, 'greater_than_or_equal_to', 'rad')),), tag=':stop'))
+    S.append(spec('T4' if locking else 'T3', schedule=(('run', 2), ('run_stop', 2, ('tachometer', 0, 'less_than', 'rad/s'))),
+                  tag=':stop_cont'))
     if units:
         S.append(spec('T1', schedule=(('run', 3),), dt_unit='ms', init_units=(('pos', 'deg'), ('spd', 'rpm')),
                       units=(('J', 'gcm^2'), ('Tmax', 'mNm'), ('w0', 'rpm')), tag=':units1'))
         S.append(spec('T3', schedule=(('run', 3),), dt_unit='min', init_units=(('pos', 'rot'), ('spd', 'deg/s')),
                       units=(('J', 'kgmm^2'), ('Tmax', 'kgfcm'), ('w0', 'rps'), ('i', 'mA')), tag=':units2'))
+    # the two motor currents given in different units, fractional duty cycles (fixed and arbitrary)
+    S.append(spec('T3', schedule=(('run', 3),), control=('fixed', 0.5), units=(('i0u', 'mA'), ('imaxu', 'A')), tag=':mixed_current_units'))
+    S.append(spec('T3', schedule=(('run', 2),), control=('arb', -1, 1), units=(('i0u', 'uA'), ('imaxu', 'mA')), tag=':mixed_current_units'))
     if tier == 'thorough':
         import random
         rnd = random.Random(seed)
@@ -705,7 +801,8 @@ BOUNDS = {
     'quick': 'K steps after the initial instant: K=2 with every continuous parameter symbolic (L-full, fixed duty, '
              'non-locking chains T1,T2,T3,T5,T6) ; K<=4 with configuration and dt concrete and initial state, loads '
              '(fresh symbol per call) symbolic (L-state, T1..T7) ; K=2 with an arbitrary duty cycle in [-1,1] per '
-             'instant (T3, T4) ; schedules run(4), run(2)+run(2), run(2)+reset+rerun (same/new Solver); chains of 3..8 elements',
+             'instant (T3, T4) ; schedules run(4), run(2)+run(2), run(2)+reset+rerun (same/new Solver), early stop on a fresh run '
+             'and during a continuation; chains of 3..8 elements',
     'thorough': 'quick + 44 seeded chains of 2..12 elements (K=3, continuation 2+2), L-full on 5 seeded chains, K=5, '
                 'continuation 2+3, arbitrary duty on T6/T7',
 }
